@@ -23,6 +23,11 @@ def run_guarded(ctx, mod, replay):
     if pid == 0:
         code = 0
         try:
+            import ctypes, signal
+            ctypes.CDLL("libc.so.6").prctl(1, signal.SIGKILL)     # die with the parent (PR_SET_PDEATHSIG)
+        except Exception:
+            pass
+        try:
             if replay:
                 mod.replay(ctx, json.load(open(replay)))
             else:
@@ -39,7 +44,24 @@ def run_guarded(ctx, mod, replay):
             sys.stdout.flush()
             sys.stderr.flush()
             os._exit(code)
-    _, status = os.waitpid(pid, 0)
+    budget = float(os.environ.get("VERIF_BUDGET_S", "900" if ctx.tier == "quick" else "5400"))
+    t_start = time.time()
+    while True:
+        wp, status = os.waitpid(pid, os.WNOHANG)
+        if wp != 0:
+            break
+        if time.time() - t_start > budget:
+            os.kill(pid, 9)
+            os.waitpid(pid, 0)
+            case = None
+            try:
+                case = json.load(open(ctx.case_file))
+            except Exception:
+                pass
+            import shutil
+            shutil.rmtree(d, ignore_errors=True)
+            raise Infra("exploration exceeded its time budget of %.0fs; last input: %s" % (budget, json.dumps(case)[:600]))
+        time.sleep(0.05)
     try:
         if os.WIFSIGNALED(status):
             sig = os.WTERMSIG(status)
